@@ -254,7 +254,7 @@ Definition damage (k : option sizeclass) (f : fstate) : fstate :=
   match k, f with
   | None, _ => Absent                                   (* deleted *)
   | Some _, Absent => Absent                            (* nothing there to truncate *)
-  | Some k, Partial _ c => Partial k c
+  | Some _, Partial k' c => Partial k' c                (* an already damaged file is left as it is *)
   | Some k, Complete c => Partial k c
   end.
 Definition role_of (x : path) : role := match x with Final r _ => r | Tmp _ r => r end.
@@ -304,32 +304,54 @@ Fixpoint outcomes (st : state) (p0 : pid) (fs : list form) : list nat :=
   | n :: fs' => oc_code n (outcome_of st p0) :: outcomes st (S p0) fs'
   end.
 
-(* returns the new state, the next unused pid and the outcome codes of this event's processes *)
-Definition do_event (pr : proto) (orc : oracle) (st : state) (np : pid) (e : event) : state * pid * list nat :=
+(* the program counters a process running alone goes through (what the driver's stage hooks record) *)
+Definition pc_code (c : pc) : nat :=
+  let ph w := match w with W0 => 0 | W1 => 1 | W2 => 2 | W3 => 3 | W4 => 4 end in
+  match c with
+  | PImport => 1 | PMkdtemp => 2
+  | PWrite Pyx w => 10 + ph w | PWrite Cfile w => 20 + ph w | PWrite Obj w => 30 + ph w | PWrite So w => 40 + ph w
+  | PReplace => 50 | PCleanup => 51 | PReimport => 52
+  | PDone _ => 99
+  end.
+Fixpoint trace_solo (pr : proto) (orc : oracle) (fuel : nat) (st : state) (p : pid) : list nat :=
+  match fuel with
+  | 0 => []
+  | S f => match procs st p with
+           | Some q => if is_done (ppc q) then []
+                       else pc_code (ppc q) :: trace_solo pr orc f (step pr orc st (Step p)) p
+           | None => []
+           end
+  end.
+
+(* returns the new state, the next unused pid, the outcome codes of this event's processes and
+   (for ERun) the stages the process went through *)
+Definition do_event (pr : proto) (orc : oracle) (st : state) (np : pid) (e : event)
+  : state * pid * list nat * list nat :=
   match e with
   | ERun n =>
-      let st' := solo pr orc FUEL (step pr orc st (Spawn np n)) np in
-      (st', S np, [oc_code n (outcome_of st' np)])
+      let st0 := step pr orc st (Spawn np n) in
+      let st' := solo pr orc FUEL st0 np in
+      (st', S np, [oc_code n (outcome_of st' np)], trace_solo pr orc FUEL st0 np)
   | EKill n tgt =>
       let st1 := until pr orc FUEL (step pr orc st (Spawn np n)) np tgt in
       let st' := step pr orc st1 (Kill np) in
-      (st', S np, [oc_code n (outcome_of st' np)])
-  | EDmg r k => (damage_all st r k, np, [])
+      (st', S np, [oc_code n (outcome_of st' np)], [])
+  | EDmg r k => (damage_all st r k, np, [], [])
   | ESched fs sched =>
       let st1 := spawn_all pr orc st np fs in
       let st2 := fold_left (fun s (e : nat * pc) => until pr orc FUEL s (np + fst e) (snd e)) sched st1 in
       let st3 := fold_left (fun s i => solo pr orc FUEL s (np + i)) (seq 0 (length fs)) st2 in
-      (st3, np + length fs, outcomes st3 np fs)
+      (st3, np + length fs, outcomes st3 np fs, [])
   end.
 
-(* the whole history: per event the outcome codes and the directory observation afterwards *)
+(* the whole history: per event the outcome codes, the directory observation afterwards, the stage trace *)
 Fixpoint history (pr : proto) (orc : oracle) (nforms : nat) (st : state) (np : pid) (es : list event)
-  : list (list nat * list nat) :=
+  : list (list nat * list nat * list nat) :=
   match es with
   | [] => []
   | e :: es' =>
-      let '(st', np', ocs) := do_event pr orc st np e in
-      (ocs, observe_fs st' np' nforms) :: history pr orc nforms st' np' es'
+      let '(st', np', ocs, trc) := do_event pr orc st np e in
+      (ocs, observe_fs st' np' nforms, trc) :: history pr orc nforms st' np' es'
   end.
 
 Definition predict (pr : proto) (orc : oracle) (nforms : nat) (es : list event) :=
